@@ -208,6 +208,18 @@ def systematic_cases():
         cases.append(mk_case(None, False, "python failure before tasks: " + k, raw_cond=code + HELPERS[""] + ok_t))
         cases.append(mk_case(None, False, "python failure in included file: " + k, raw_cond="include('inc.cond')\n" + HELPERS[""] + ok_t, extra_files={"inc.cond": code}))
         cases.append(mk_case(None, False, "python failure in a dependency's COND: " + k, raw_cond=HELPERS[""] + "run_command(name='t', run='true', deps=['//lib:h2'])\n", extra_files={"lib/COND": HELPERS["lib"] + code}))
+    for k, code in {"bare-assert": "assert False\n", "raise-class": "raise RuntimeError\n", "raise-noargs": "raise KeyError()\n", "raise-empty-valueerror": "raise ValueError()\n"}.items():
+        cases.append(mk_case(None, False, "python failure without message in COND: " + k, raw_cond=HELPERS[""] + ok_t + code))
+        cases.append(mk_case(None, False, "python failure without message in included file: " + k, raw_cond="include('inc.cond')\n" + HELPERS[""] + ok_t, extra_files={"inc.cond": code}))
+        cases.append(mk_case(None, False, "python failure without message in a dependency's COND: " + k, raw_cond=HELPERS[""] + "run_command(name='t', run='true', deps=['//lib:h2'])\n", extra_files={"lib/COND": HELPERS["lib"] + code}))
+    # a name defined in one COND file is not visible in another one (each file has its own scope)
+    for deps in ("['//lib:u', ':h1']", "[':h1', '//lib:u']", "['//lib:u']"):
+        cases.append(mk_case(None, False, "dependency's COND uses a name only the target's COND defines " + deps, raw_cond="HELPER_RUN = 'true'\n" + HELPERS[""] + "run_command(name='t', run=HELPER_RUN, deps=%s)\n" % deps,
+                             extra_files={"lib/COND": HELPERS["lib"] + "run_command(name='u', run=HELPER_RUN)\n"}))
+        cases.append(mk_case(None, False, "target's COND uses a name only the dependency's COND defines " + deps, raw_cond=HELPERS[""] + "run_command(name='t', run=LIB_RUN, deps=%s)\n" % deps,
+                             extra_files={"lib/COND": "LIB_RUN = 'true'\n" + HELPERS["lib"] + "run_command(name='u', run=LIB_RUN)\n"}))
+        cases.append(mk_case(None, False, "a function defined by an included file of ANOTHER COND file " + deps, raw_cond="include('inc.cond')\n" + HELPERS[""] + "run_command(name='t', run=RUN, deps=%s)\n" % deps,
+                             extra_files={"inc.cond": "RUN = 'true'\n", "lib/COND": HELPERS["lib"] + "run_command(name='u', run=RUN)\n"}))
     cases.append(mk_case(None, False, "non-UTF-8 COND", raw_cond=b"\xff\xfe\x00run_command(name='t', run='true')\n"))
     cases.append(mk_case(None, False, "NUL byte in COND", raw_cond=b"run_command(name='t', run='true')\n\x00\n"))
     cases.append(mk_case(None, False, "non-UTF-8 include", raw_cond="include('inc.cond')\n" + HELPERS[""] + ok_t, extra_files={"inc.cond": b"X = '\xff'\n"}))
